@@ -12,6 +12,7 @@ package main
 //	harness c18fresh-child <curve> <op> <hex coordinates...>
 
 import (
+	"encoding/hex"
 	"encoding/json"
 	"flag"
 	"fmt"
@@ -20,11 +21,78 @@ import (
 	"os/exec"
 	"reflect"
 	"strconv"
+	"strings"
 )
 
 func init() {
 	register("c18fresh", runC18Fresh)
 	register("c18fresh-child", runC18FreshChild)
+	register("c18fresh-mimc", runC18FreshMimcChild)
+}
+
+// c18fresh-mimc <instance index> <hex message>: the package-level mimc.Sum as the first library call of the process
+func runC18FreshMimcChild(args []string) {
+	idx, _ := strconv.Atoi(args[0])
+	msg, _ := hex.DecodeString(args[1])
+	in := c14MimcInsts()[idx]
+	ev := Ev{"op": "MimcSum", "p": bytesToInts(msg)}
+	var o []byte
+	var err error
+	if m, pk := c14try(func() { o, err = in.sum(msg) }); pk {
+		ev["panic"] = m
+	} else if err != nil {
+		ev["err"] = err.Error()
+	} else {
+		ev["out"] = bytesToInts(o)
+	}
+	b, _ := json.Marshal(ev)
+	fmt.Println(string(b))
+}
+
+// mimcFresh: for every MiMC package, Sum(msg) in a fresh process and again in this one; the events have the format of the
+// C14 driver and are judged by spec/C14_hashes/TraceHashes (the definition of the hash with the documented constants).
+func mimcFresh(out string, seed uint64) int {
+	total := 0
+	rounds := map[string]int{"bn254/fr": 110, "bls12-377/fr": 62, "bls12-381/fr": 111, "bls24-315/fr": 109, "bls24-317/fr": 91,
+		"bw6-633/fr": 136, "bw6-761/fr": 163, "grumpkin/fr": 110}
+	for idx, in := range c14MimcInsts() {
+		if in.sum == nil {
+			continue
+		}
+		f := fields[in.field]
+		r := newRng(seed*6121 + uint64(idx))
+		t := newTrace(out, "c18freshmimc_"+strings.NewReplacer("/", "_", "-", "").Replace(in.field), Ev{"property": "C18", "family": "mimc",
+			"field": in.field, "name": in.name, "le": in.le, "eb": f.NBytes, "config": "fresh", "seed": int(seed % (1 << 30)),
+			"cs": c14KeccakChain("seed", rounds[in.field])})
+		t.Emit(Ev{"op": "Params"})
+		for k := 0; k < 2; k++ {
+			msg := f.ToMont(r.Below(f.Q)).FillBytes(make([]byte, f.NBytes)) // one block, below the modulus
+			if k == 1 {
+				msg = append(msg, big.NewInt(int64(7+idx)).FillBytes(make([]byte, f.NBytes))...)
+			}
+			cmd := exec.Command(os.Args[0], "c18fresh-mimc", strconv.Itoa(idx), hex.EncodeToString(msg))
+			cmd.Stderr = os.Stderr
+			b, err := cmd.Output()
+			var ev Ev
+			if err != nil || json.Unmarshal(b, &ev) != nil {
+				ev = Ev{"op": "MimcSum", "p": bytesToInts(msg), "panic": fmt.Sprintf("child process failed: %v", err)}
+			}
+			ev["fresh"] = true
+			t.Emit(ev)
+			w := Ev{"op": "MimcSum", "p": bytesToInts(msg), "fresh": false}
+			var o []byte
+			if m, pk := c14try(func() { o, err = in.sum(msg) }); pk {
+				w["panic"] = m
+			} else if err != nil {
+				w["err"] = err.Error()
+			} else {
+				w["out"] = bytesToInts(o)
+			}
+			t.Emit(w)
+		}
+		total += t.Close()
+	}
+	return total
 }
 
 // edLiteral builds a representative of kind k of the affine point (x, y) scaled by lam, writing limbs only.
@@ -165,5 +233,6 @@ func runC18Fresh(args []string) {
 		}
 		total += t.Close()
 	}
+	total += mimcFresh(*out, *seed)
 	fmt.Printf("c18fresh: %d events\n", total)
 }
